@@ -139,6 +139,10 @@ class ElectronicModel_(object):
             if hasattr(self, key):
                 out[key.lstrip('_')] = getattr(self, key).tolist()
 
+        # the tracked sign convention of the states, needed to resume a trajectory from a log
+        if isinstance(self._reference, np.ndarray):
+            out["reference"] = self._reference.tolist()
+
         return out
 
 
